@@ -1541,6 +1541,91 @@ func (g *c17Gen) tinyScript() *c17Script {
 	return s
 }
 
+// lowReserveTPS: a live position (sizes 5..8, default piece counts) in which the side to move has placed every flat stone
+// and still holds a capstone: no flat placement is legal, capstone placements and slides are.  The stones sit in stacks
+// on the diagonal (no two orthogonally adjacent: no road), the rest of the board is empty.
+func (g *c17Gen) lowReserveTPS(size int) (string, bool) {
+	r := g.r
+	pieces := map[int]int{5: 21, 6: 30, 7: 40, 8: 50}[size]
+	whiteToMove := r.Intn(2) == 0
+	mine, other := pieces, 1+r.Intn(pieces-1)
+	b := make([][]tak.Square, size)
+	for y := range b {
+		b[y] = make([]tak.Square, size)
+	}
+	var diag []int
+	for i := 0; i < size; i++ {
+		diag = append(diag, i)
+	}
+	r.Shuffle(len(diag), func(i, j int) { diag[i], diag[j] = diag[j], diag[i] })
+	k := 2 + r.Intn(size-2)
+	diag = diag[:k]
+	me, op := tak.White, tak.Black
+	if !whiteToMove {
+		me, op = op, me
+	}
+	var all []tak.Piece
+	for i := 0; i < mine; i++ {
+		all = append(all, tak.MakePiece(me, tak.Flat))
+	}
+	for i := 0; i < other; i++ {
+		all = append(all, tak.MakePiece(op, tak.Flat))
+	}
+	r.Shuffle(len(all), func(i, j int) { all[i], all[j] = all[j], all[i] })
+	for i, pc := range all {
+		d := diag[i%k]
+		b[d][d] = append(b[d][d], pc)
+	}
+	for _, d := range diag {
+		if len(b[d][d]) > 60 {
+			return "", false
+		}
+	}
+	move := 2 * (mine + r.Intn(20))
+	if !whiteToMove {
+		move++
+	}
+	p, err := tak.FromSquares(tak.Config{Size: size}, b, move)
+	if err != nil {
+		return "", false
+	}
+	if over, _ := p.GameOver(); over {
+		return "", false
+	}
+	return c17FormatTPS(absOf(p)), true
+}
+
+// lowReserveScript: such a position declared by TPS (optionally moved on by one legal move and back), then go lines with
+// clocks that cut the search at once (tiny) or not at all.
+func (g *c17Gen) lowReserveScript(tiny bool) *c17Script {
+	r := g.r
+	s := &c17Script{mode: "L", depth: 1 + r.Intn(2), evk: 2, tbl: []int{0, 64}[r.Intn(2)], family: "low-reserve", tiny: tiny}
+	size := 5 + r.Intn(4)
+	tps, ok := g.lowReserveTPS(size)
+	for !ok {
+		tps, ok = g.lowReserveTPS(size)
+	}
+	lines := []string{"teinewgame " + strconv.Itoa(size), "position tps " + tps}
+	for k := 0; k < 1+r.Intn(3); k++ {
+		var a []string
+		if tiny {
+			switch r.Intn(3) {
+			case 0:
+				a = []string{"wtime", "1", "btime", "1"}
+			case 1:
+				a = []string{"movetime", "1"}
+			default:
+				a = []string{"wtime", strconv.Itoa(1 + r.Intn(3)), "btime", strconv.Itoa(1 + r.Intn(3)), "winc", "0", "binc", "0"}
+			}
+		} else {
+			a = g.goArgs(true)
+		}
+		lines = append(lines, strings.Join(append([]string{"go"}, a...), " "))
+	}
+	s.text = []byte(strings.Join(lines, "\n") + "\n")
+	return s
+}
+
 // ---------------------------------------------------------------------------------------------------------------------
 // clock probes: which clock does a go obey?  The evaluator waits inside the first evaluation until the searcher's
 // context expires.  The expiry can be late (scheduling) but never early, and the clocks are chosen far apart.
@@ -1839,6 +1924,9 @@ func runC17(c *ctx) {
 	}
 	for i := 0; i < 40*c.scale; i++ {
 		scripts = append(scripts, g.tinyScript())
+	}
+	for i := 0; i < 60*c.scale; i++ {
+		scripts = append(scripts, g.lowReserveScript(i%3 != 0))
 	}
 	c17RunScripts(c, bin, "scripts-"+c.tier, scripts)
 	c17Budgets(c, bin)
